@@ -307,6 +307,15 @@ def run12 (fin : Bytes → Bytes) (i : Input) : Result :=
 def run (fin : Bytes → Bytes) (i : Input) : Result :=
   if i.vers = VersionTLS13 then run13 fin i else run12 fin i
 
+/-- One connection, possibly **resuming** a TLS 1.3 session (`hs.usingPSK`). What resumption changes
+in the part of the handshake modelled here: the server sends no CertificateRequest (RFC 8446 §4.3.2;
+`sendClientCertificate` returns at `hs.certReq == nil`), so no certificate messages are written.
+Nothing else: `readServerParameters`, `utlsReadServerParameters` and
+`sendClientEncryptedExtensions` never look at `usingPSK` — the server's EncryptedExtensions of a
+resumed handshake negotiates ALPS afresh and the client answers it like in a full handshake. -/
+def runConn (fin : Bytes → Bytes) (resumed : Bool) (i : Input) : Result :=
+  run fin (if resumed then { i with cert := [] } else i)
+
 /-- extension types `serverHelloMsg.unmarshal` has a `case` for; everything else is skipped. -/
 def serverHelloKnown : List Nat := [5, 35, 0xff01, 23, 16, 18, 43, 44, 51, 41, 11, 0xfe0d, 0]
 
